@@ -16,6 +16,17 @@ def encode(n):
                  for i, g in enumerate(groups))
 
 
+def encode_padded(n, width):
+    """Non-minimal form of fixed width (what writers that reserve the space
+    for a length in advance emit): continuation bits on all but the last
+    group, high groups zero."""
+    if n >= 1 << (7 * width):
+        return encode(n)
+    groups = [(n >> (7 * i)) & 0x7F for i in range(width)]
+    return bytes(g | (0x80 if i < width - 1 else 0)
+                 for i, g in enumerate(groups))
+
+
 def encode_signed(n, bits):
     """Two's-complement form the protocol uses for negative VarInt/VarLong."""
     return encode(n % (1 << bits))
